@@ -129,7 +129,9 @@ class Divider(FormulaStep):
         """
         val2 = eval_stack.pop()
         val1 = eval_stack.pop()
-        res = val1 / val2
+        # A division by zero has no defined result.  NaN makes the formula emit a
+        # `None` sample for this timestamp, instead of dropping the sample.
+        res = val1 / val2 if val2 != 0.0 else math.nan
         eval_stack.append(res)
 
 
